@@ -51,6 +51,18 @@ using std::set;
 using std::string;
 
 /**
+ * Orders remaps by wrapper index (then by signature), which does not depend
+ * on their addresses.
+ */
+static bool
+compare_remaps_by_index(const FunctionRemap *a, const FunctionRemap *b) {
+  if (a->_wrapper_index != b->_wrapper_index) {
+    return a->_wrapper_index < b->_wrapper_index;
+  }
+  return a->_function_signature < b->_function_signature;
+}
+
+/**
  * Returns the remap of the set that has the lowest wrapper index.  The set is
  * ordered by address, so taking its first element would make the generated
  * code depend on where the remaps happen to live in memory.
@@ -2893,6 +2905,7 @@ write_module_class(ostream &out, Object *obj) {
 
           std::vector<FunctionRemap *> remaps;
           remaps.insert(remaps.end(), def._remaps.begin(), def._remaps.end());
+          std::sort(remaps.begin(), remaps.end(), compare_remaps_by_index);
           string expected_params;
           write_function_for_name(out, obj, remaps, fname, expected_params, true, AT_keyword_args, RF_pyobject | RF_err_null);
         }
@@ -2904,6 +2917,7 @@ write_module_class(ostream &out, Object *obj) {
 
         std::vector<FunctionRemap *> remaps;
         remaps.insert(remaps.end(), def._remaps.begin(), def._remaps.end());
+        std::sort(remaps.begin(), remaps.end(), compare_remaps_by_index);
         string expected_params;
         write_function_for_name(out, obj, remaps, fname, expected_params, true, AT_keyword_args, RF_pyobject | RF_err_null);
         break;
